@@ -332,6 +332,21 @@ structure X509IssueExt where
   parseCert : Nat → Nat × Option Err
   sign : Str → Nat → Nat → Int → List Str → List Str → List Str → Nat × Option Err
 
+/-! ### lib/client/sshagent `deleteDuplicateEntries` -/
+
+/-- the one effect on the agent: `agentClient.Remove(pubKey)` -/
+inductive AgentEffect (π : Type)
+  | remove (pub : π)
+
+/-- externals: the agent's listing (`κ` = listed entries), `ssh.ParsePublicKey` of an entry's blob (`π` = parsed keys),
+whether a parsed key is a certificate, an entry's comment, the agent's answer to a removal -/
+structure AgentExt (κ π : Type) where
+  list : List κ × Option Err
+  parse : κ → π × Option Err
+  isCert : π → Bool
+  comment : κ → Str
+  removeResult : π → Option Err
+
 /-! ### cmd/keymasterd `consumeLoginChallenge` -/
 
 /-- `localUserData`: the pending challenge of a user; the two challenge pointers are compared by identity (numbers
